@@ -234,7 +234,8 @@ UNITS = {
     'C12': {
         'functions': ['penman.transform:_reified_markers', 'penman.transform:_edge_markers',
                       'penman.transform:_attr_markers', 'penman.model:Model.reify', 'penman.model:Model.dereify',
-                      'penman.transform:indicate_branches@functional'],
+                      'penman.transform:indicate_branches@functional',
+                      'penman.transform:reify_attributes@functional'],
         'lemmas': ['without_role_snoc'],
         'level': 'other',
         'explanation': 'Proved: the marker-splitting helpers and the model-level reify/dereify used by every '
